@@ -27,9 +27,8 @@ func seqPlans(thorough bool) []seqPlan {
 	// one configuration one level deeper
 	out[2].depth = d + 1 // L2-r16-t44
 	if thorough {
-		for _, L := range []int{1, 2, 3} {
-			out = append(out, seqPlan{config{L: L, R: 16, T: 1, Tie: 1}, 4}, seqPlan{config{L: L, R: 0, T: 44, Tie: 1}, 4})
-		}
+		// the other pairing of replace size and target message size, other tiebreak winner
+		out = append(out, seqPlan{config{L: 1, R: 16, T: 1, Tie: 1}, 4}, seqPlan{config{L: 2, R: 0, T: 44, Tie: 1}, 4}, seqPlan{config{L: 3, R: 16, T: 1, Tie: 1}, 4})
 		out = append(out, seqPlan{config{L: 1, R: 0, T: 1, Zero: true}, 5})
 		out = append(out, seqPlan{config{L: 2, R: 16, T: 44, Wide: true, Tie: 1}, 4}, seqPlan{config{L: 3, R: 0, T: 1, Wide: true}, 4})
 	}
@@ -42,7 +41,7 @@ func main() {
 			seqWorkerMain()
 			return
 		}
-		vexp.Register(concScenarios()...)
+		vexp.Register(concScenarios(false)...)
 		eng.WorkerMain()
 	}
 	eng.Main("C36", "model_checking", func(r *eng.Run) {
@@ -80,7 +79,7 @@ func main() {
 		if os.Getenv("VERIF_C36_NOSEQ") == "" {
 			exploreSeq(r, plans)
 		}
-		if scs := concScenarios(); len(scs) > 0 && os.Getenv("VERIF_C36_NOCONC") == "" {
+		if scs := concScenarios(r.Thorough()); len(scs) > 0 && os.Getenv("VERIF_C36_NOCONC") == "" {
 			vexp.Explore(r, scs, vexp.Options{Bound: eng.Pick(r, 1, 2), Workers: eng.Pick(r, 8, 0)})
 		}
 	}, func(r *eng.Run, raw json.RawMessage) {
@@ -94,6 +93,6 @@ func main() {
 			replaySeq(r, rp)
 			return
 		}
-		vexp.Replay(r, concScenarios(), raw)
+		vexp.Replay(r, concScenarios(r.Thorough()), raw)
 	})
 }
